@@ -389,13 +389,13 @@ func enumXMLNS(e *env) {
 
 func checkXMLNS(e *env, fn string, items []any) {
 	type doc struct {
-		tree           any
-		arr, obj, seq  string
-		facts          nsFacts
-		text           string
-		known          map[string]string // mode -> canonical wrong value of the recorded defect
-		skip           bool
-		objIn, seqIn   any
+		tree          any
+		arr, obj, seq string
+		facts         nsFacts
+		text          string
+		known         map[string]string // mode -> canonical wrong value of the recorded defect
+		skip          bool
+		objIn, seqIn  any
 	}
 	docs := make([]doc, len(items))
 	inputs := make([]any, len(items))
